@@ -56,9 +56,9 @@ FULL_RULE = ("one evaluation = one simulated run of a seeded plan against the co
              "fixpoint where the liveness clauses are asserted. A run is non-trivial if the property's monitor judged at least one "
              "non-vacuous instance (see nonTrivialFull in preset_full.go); distinct = distinct hashes of the full scheduler decision sequence.")
 
-for _p, _q, _t in [("C02", 400, 60000), ("C05", 400, 60000), ("C06", 400, 60000), ("C07", 400, 60000), ("C08", 400, 60000),
-                   ("C09", 400, 60000), ("C10", 400, 60000), ("C11", 400, 60000), ("C12", 400, 60000), ("C13", 400, 60000),
-                   ("C15", 400, 60000)]:
+for _p, _q, _t in [("C02", 1600, 60000), ("C05", 1600, 60000), ("C06", 1600, 60000), ("C07", 1600, 60000), ("C08", 1600, 60000),
+                   ("C09", 1600, 60000), ("C10", 1600, 60000), ("C11", 1600, 60000), ("C12", 1600, 60000), ("C13", 1600, 60000),
+                   ("C15", 1600, 60000)]:
     CAMPAIGNS[_p] = {"variants": [V("full", _q, 90, _t, 1800)], "rule": FULL_RULE, "expect_probes": [], "shrink_s": {"quick": 60, "thorough": 300}}
 
 CAMPAIGNS["C19"] = {"variants": [V("config", 1600, 60, 120000, 1500)],
@@ -69,7 +69,7 @@ CAMPAIGNS["C19"] = {"variants": [V("config", 1600, 60, 120000, 1500)],
              "a ConfigMap/Secret layer set a field; distinct = distinct event-sequence hashes."),
     "expect_probes": ["config.malformed", "mon.c19.undecodable"], "shrink_s": {"quick": 45, "thorough": 200}}
 
-CAMPAIGNS["C20"] = {"variants": [V("full", 800, 90, 40000, 1800)],
+CAMPAIGNS["C20"] = {"variants": [V("full", 1200, 100, 40000, 1800)],
     "rule": FULL_RULE + " For C20 every evaluation executes the plan twice - a fault-free twin (fair scheduler, no faults) and the faulty run - and compares the "
             "observable outcome (scheduled Jobs created, per-Job result, Pods created per Job, TTL deletions, final JobConfig active/queued) modulo time, with all safety "
             "monitors of C02, C05-C13 armed in both.",
